@@ -240,9 +240,9 @@ def run(ctx):
     r = random.Random(ctx.seed)
     st = CO.Stats()
     quick = ctx.quick
-    n_fin, n_inf = (170, 50) if quick else (4000, 800)
+    n_fin, n_inf = (170, 50) if quick else (1500, 300)
     cases = [case_finite(r, st, quick) for _ in range(n_fin)] + [case_infinite(r, st, quick) for _ in range(n_inf)]
-    info, fails = CO.run_cases(cases, ctx, nworkers=6, default_timeout=15.0, budget_s=60 if quick else 3000)
+    info, fails = CO.run_cases(cases, ctx, nworkers=6, default_timeout=15.0, budget_s=60 if quick else 1200)
     s = info["summary"]
     evaluations = sum(len(c["task"]["variants"]) for c in cases if c.get("verdict") in ("ok", "violates", "undecided"))
     cov = {
